@@ -647,3 +647,38 @@ def va_list_consumptions(func):
                 if rd and ('va_list' in ((rd.get('type') or {}).get('qualType') or '') or '__va_list_tag' in ((rd.get('type') or {}).get('qualType') or '')):
                     out.setdefault(rd['id'], []).append(x)
     return out
+
+
+def persistent_locals(func):
+    """function-local variables with static or thread storage duration that are not const:
+    state left behind by one call and seen by the next (possibly on another object)."""
+    out = []
+    b = body_of(func)
+    if b is None:
+        return out
+    for v in walk(b):
+        if v.get('kind') == 'VarDecl' and (v.get('storageClass') == 'static' or v.get('tls')):
+            qt = ((v.get('type') or {}).get('qualType') or '')
+            if qt.startswith('const ') or v.get('constexpr'):
+                continue
+            out.append(v)
+    return out
+
+
+def reset_before_use(var, func):
+    """the persistent local is emptied/reassigned unconditionally right after its declaration
+    (the next statement is `var.clear()` / `var = ...` / `var.assign(...)`)."""
+    st = containing_statement(var)
+    p = st.get('_p') if st is not None else None
+    if p is None or p.get('kind') != 'CompoundStmt':
+        return False
+    sibs = list(kids(p))
+    i = next((j for j, s in enumerate(sibs) if s is st), None)
+    if i is None or i + 1 >= len(sibs):
+        return False
+    nx = strip(sibs[i + 1])
+    if nx.get('kind') == 'CXXMemberCallExpr' and call_name(nx) in ('clear', 'assign') and (ref_decl(member_call_object(nx)) or {}).get('id') == var['id']:
+        return True
+    if nx.get('kind') in ('BinaryOperator', 'CXXOperatorCallExpr') and (nx.get('opcode') == '=' or call_name(nx) == 'operator=') and (ref_decl(kids(nx)[0] if nx.get('kind') == 'BinaryOperator' else kids(nx)[1]) or {}).get('id') == var['id']:
+        return True
+    return False
